@@ -165,3 +165,33 @@ Lemma w1_refutes :
   cleanup (grammar_env w1_gi [] sE false) w1_raw = Ok w1_clean_old /\
   has_raw (e_tmpl (grammar_env w1_gi [] sE false)) (te_cv w1_clean_old) = true.
 Proof. repeat split; vm_compute; reflexivity. Qed.
+
+(* ---- one parser object used for several calls -------------------------- *)
+
+Lemma call_state_constant : forall E r, fst (call_step E r) = E.
+Proof. reflexivity. Qed.
+
+Lemma run_calls_map : forall E raws, run_calls E raws = map (cleanup E) raws.
+Proof.
+  intros E raws. induction raws as [|r rest IH]; [reflexivity|].
+  cbn [run_calls call_step fst snd map]. now rewrite IH.
+Qed.
+
+Lemma run_calls_nth : forall E pre r post,
+  nth_error (run_calls E (pre ++ r :: post)) (length pre) = Some (cleanup E r).
+Proof.
+  intros E pre r post. rewrite run_calls_map, map_app.
+  rewrite nth_error_app2; rewrite map_length; [|apply Nat.le_refl].
+  now rewrite Nat.sub_diag.
+Qed.
+
+(* "[a, {k: [b, c], k: d}, [], ]" parsed, then "a" parsed from the start symbol
+   VALUE (the item symbol of the list and of the map), then the first text again *)
+Definition w2_value_raw : rt := RNode sVALUE [RTok sWORD [97]%Z].
+Definition w2_clean : te :=
+  mkTe sE true (CList [CStr [97]%Z; CDict [(CStr [107]%Z, CStr [100]%Z)]; CList []]).
+
+Lemma w2_history :
+  run_calls (env_of w2_g [] sE true) [w2_raw; w2_value_raw; w2_raw] =
+  [Ok w2_clean; Ok (mkTe sWORD true (CStr [97]%Z)); Ok w2_clean].
+Proof. vm_compute. reflexivity. Qed.
